@@ -848,7 +848,15 @@ class Flow:
         if k in ("c", "m"):
             return self.place_tree(op[1], bb, idx, depth, stack)
         if k == "k":
-            return const_node(op[1])
+            c = op[1]
+            if "promoted" in c and "fn" not in c:
+                # a promoted constant of this body: name the constant(s) it is built from
+                refs = (self.fn.meta.get("promoted") or {}).get(str(c["promoted"]), [])
+                if len(refs) == 1:
+                    return ("const", c.get("ty"), c.get("v"), refs[0])
+                if refs:
+                    return ("const", c.get("ty"), c.get("v"), "+".join(refs))
+            return const_node(c)
         return ("unk", "operand")
 
     def rvalue_tree(self, rv, bb, idx, depth=0, stack=frozenset()):
